@@ -161,7 +161,7 @@ impl Property for P {
     }
     fn cases(tier: Tier) -> u64 {
         match tier {
-            Tier::Quick => 200_000,
+            Tier::Quick => 800_000,
             Tier::Thorough => 10_000_000,
         }
     }
@@ -180,4 +180,16 @@ impl Property for P {
     fn min_nontrivial_share() -> f64 {
         0.2
     }
+}
+
+pub fn decode(data: &[u8]) -> Case {
+    let mut r = crate::fuzzdec::Reader::new(data);
+    let mode = r.u8();
+    let spec = crate::fuzzdec::optspec(&mut r, true, true);
+    let la = r.u8() as usize % 24;
+    let la2 = r.u8() as usize % 24;
+    let a = crate::fuzzdec::text(mode, r.take(la));
+    let a2 = crate::fuzzdec::text(mode, r.take(la2));
+    let b = crate::fuzzdec::text(mode, r.rest());
+    Case { a, a2, b, spec }
 }
